@@ -69,6 +69,8 @@ use crate::{lru_time_cache::LruTimeCache, socket::ListenConfig};
 use active_requests::ActiveRequests;
 use request_call::RequestCall;
 use session::Session;
+#[cfg(discv5_verif)]
+pub(crate) use session::Session as VerifSession;
 
 // The time interval to check banned peer timeouts and unban peers when the timeout has elapsed (in
 // seconds).
@@ -104,6 +106,10 @@ pub enum HandlerIn {
     /// The `WhoAreYouRef` is sent out in the `HandlerOut::WhoAreYou` event and should
     /// be returned here to submit the application's response.
     WhoAreYou(WhoAreYouRef, Option<Enr>),
+
+    /// Verification hook: harness control commands (virtual session ageing, state snapshot).
+    #[cfg(discv5_verif)]
+    Verif(crate::verif::HandlerCmd),
 }
 
 /// Messages sent between a node on the network and `Handler`.
@@ -166,6 +172,25 @@ pub struct Challenge {
     data: ChallengeData,
     /// The remote's ENR if we know it. We can receive a challenge from an unknown node.
     remote_enr: Option<Enr>,
+}
+
+#[cfg(discv5_verif)]
+impl Challenge {
+    /// Verification hook: constructor for the crafting toolkit.
+    pub(crate) fn verif_new(data: ChallengeData, remote_enr: Option<Enr>) -> Self {
+        Challenge { data, remote_enr }
+    }
+}
+
+/// Verification hook: `crypto::sign_nonce` for the crafting toolkit.
+#[cfg(discv5_verif)]
+pub(crate) fn verif_sign_nonce(
+    key: &CombinedKey,
+    data: &ChallengeData,
+    ephem_pubkey: &[u8],
+    dst_id: &NodeId,
+) -> Result<Vec<u8>, String> {
+    crypto::sign_nonce(key, data, ephem_pubkey, dst_id).map_err(|e| format!("{e:?}"))
 }
 
 /// Request ID from the handler's perspective.
@@ -330,6 +355,109 @@ impl Handler {
         Ok((exit_sender, handler_send, handler_recv))
     }
 
+    /// Verification hook: builds a `Handler` exactly like [`Handler::spawn`] does, but wired to a
+    /// virtual socket (in-memory channels) and without spawning it.
+    #[cfg(discv5_verif)]
+    #[allow(clippy::type_complexity)]
+    pub(crate) fn verif_new(
+        enr: Arc<RwLock<Enr>>,
+        key: Arc<RwLock<CombinedKey>>,
+        config: Config,
+        listen_sockets: Vec<SocketAddr>,
+        channel_capacity: usize,
+    ) -> (
+        Handler,
+        oneshot::Sender<()>,
+        mpsc::UnboundedSender<HandlerIn>,
+        mpsc::Receiver<HandlerOut>,
+        mpsc::Receiver<socket::send::OutboundPacket>,
+        mpsc::Sender<socket::recv::RecvPacket>,
+        Arc<RwLock<HashMap<SocketAddr, usize>>>,
+    ) {
+        let (exit_sender, exit) = oneshot::channel();
+        let (handler_send, service_recv) = mpsc::unbounded_channel();
+        let (service_send, handler_recv) = mpsc::channel(channel_capacity);
+        let (wire_send, wire_out) = mpsc::channel(channel_capacity);
+        let (wire_in, wire_recv) = mpsc::channel(channel_capacity);
+        let filter_expected_responses = Arc::new(RwLock::new(HashMap::new()));
+        let node_id = enr.read().node_id();
+        let handler = Handler {
+            request_retries: config.request_retries,
+            node_id,
+            protocol_identity: config.protocol_identity,
+            enr,
+            key,
+            active_requests: ActiveRequests::new(config.request_timeout),
+            pending_requests: HashMap::new(),
+            filter_expected_responses: filter_expected_responses.clone(),
+            sessions: LruTimeCache::new(
+                config.session_timeout,
+                Some(config.session_cache_capacity),
+            ),
+            active_challenges: HashMapDelay::new(config.request_timeout),
+            service_recv,
+            service_send,
+            listen_sockets: listen_sockets.into_iter().collect(),
+            socket: Socket::verif_virtual(wire_send, wire_recv),
+            exit,
+        };
+        (
+            handler,
+            exit_sender,
+            handler_send,
+            handler_recv,
+            wire_out,
+            wire_in,
+            filter_expected_responses,
+        )
+    }
+
+    /// Verification hook: runs the main loop of a handler built by [`Handler::verif_new`].
+    #[cfg(discv5_verif)]
+    pub(crate) async fn verif_run(mut self) {
+        self.start().await
+    }
+
+    /// Verification hook: harness control commands.
+    #[cfg(discv5_verif)]
+    fn verif_cmd(&mut self, cmd: crate::verif::HandlerCmd) {
+        match cmd {
+            crate::verif::HandlerCmd::AgeSessions(d) => self.sessions.verif_age(d),
+            crate::verif::HandlerCmd::Snapshot(slot) => {
+                let mut active = vec![];
+                for (addr, calls) in self.active_requests.verif_mapping() {
+                    for call in calls {
+                        active.push((
+                            addr.clone(),
+                            RequestId::from(call.id()),
+                            matches!(call.id(), HandlerReqId::Internal(_)),
+                            call.handshake_sent(),
+                            call.retries(),
+                            call.initiating_session(),
+                        ));
+                    }
+                }
+                let snapshot = crate::verif::HandlerSnapshot {
+                    sessions: self
+                        .sessions
+                        .verif_entries()
+                        .into_iter()
+                        .map(|(k, age)| (k, age))
+                        .collect(),
+                    challenges: self.active_challenges.iter().map(|(k, _)| k.clone()).collect(),
+                    active,
+                    nonce_mappings: self.active_requests.verif_nonce_count(),
+                    pending: self
+                        .pending_requests
+                        .iter()
+                        .map(|(k, v)| (k.clone(), v.len()))
+                        .collect(),
+                };
+                *slot.lock() = Some(snapshot);
+            }
+        }
+    }
+
     /// The main execution loop for the handler.
     async fn start(&mut self) {
         let mut banned_nodes_check = tokio::time::interval(Duration::from_secs(BANNED_NODES_CHECK));
@@ -349,6 +477,8 @@ impl Handler {
                         }
                         HandlerIn::Response(dst, response) => self.send_response(dst, *response).await,
                         HandlerIn::WhoAreYou(wru_ref, enr) => self.send_challenge(wru_ref, enr).await,
+                        #[cfg(discv5_verif)]
+                        HandlerIn::Verif(cmd) => self.verif_cmd(cmd),
                     }
                 }
                 Some(incoming_packet) = self.socket.recv.recv() => {
